@@ -6,6 +6,7 @@ pub mod drive;
 pub mod engine;
 pub mod gen;
 pub mod monitor;
+pub mod ops;
 pub mod out;
 pub mod props;
 pub mod rfc;
